@@ -14,13 +14,40 @@ Tie, per generated grammar x {fix,var} x {u8,u16,u32}:
  (2) the decoded field values must equal what the public API answers;
  (3) — the property itself, decided per instance — every public query and a
      batch of parses on `_reconstitute(bytes)` must equal those on the originals.
+The two wincode configurations the harness uses are the expressions of ctbuilder.rs itself
+(vlib/ctconfig.py copies them from the source into harness/src/c14_config.rs before the build).
+
+Size limit (LIMIT_FIXED).  Until /repo 40b4e42 both configurations kept wincode's default 4 MiB
+"preallocation size limit": any single sequence above it (a states x productions bit vector, a programs
+section of 4 MiB + 1 bytes, > 104 857 tokens) made `serialize` return Err — `CTParserBuilder::build`
+failed in both formats for grammars whose counts all fit the storage type.  The model's `decode` has no
+limit (= the code now); `decode_limited` is the reader of a configuration with one, proved to be exactly
+`decode` restricted to values all of whose sequences pass the size check (C14_decode_limited_exact), equal
+to it below the limit (C14_decode_limited_agrees_below_limit) and refuted for the round trip above it
+(C14_codec_roundtrip_limited_refuted).  LIMIT_FIXED = True: a serialisation error is a violation, the
+family `big_*` (one sequence just above 4 MiB) must round-trip like every other case.  LIMIT_FIXED = False
+(the old configurations): the build must fail EXACTLY when `decode_limited 4 MiB mem_size` refuses the bytes
+the unlimited writer produces (C14_limited_build_fails_iff); those failures are the known-finding class.
 """
 import importlib.util
 import json
 import os
+import re
+import zlib
 
-from vlib import core
+from vlib import core, ctconfig
 from gen import grammars as G
+
+# True:  /repo's ctbuilder.rs configurations have no preallocation size limit (40b4e42): the correspondence is with `decode`,
+#        a serialisation error is a violation.
+# False: the configurations keep wincode's default 4 MiB limit: a build error is expected exactly when the model's
+#        `decode_limited` refuses the (unlimited) bytes, and is matched as the known-finding class K_LIMIT.
+LIMIT_FIXED = True
+# development aid (tools/scratch_eval.sh runs): GV_C14_LIMIT_FIXED=1/0 overrides the flag for one process
+if os.environ.get("GV_C14_LIMIT_FIXED") in ("0", "1"):
+    LIMIT_FIXED = os.environ["GV_C14_LIMIT_FIXED"] == "1"
+K_LIMIT = "wincode preallocation size limit: a single sequence above 4 MiB makes CTParserBuilder::build fail in both formats"
+PREALLOC_LIMIT = 4 << 20
 
 NAMES_JSON = os.path.join(core.WORK, "c14", "schema_names.json")
 SCHEMA_V = os.path.join(core.COQ, "theories", "C14", "Schema_gen.v")
@@ -174,6 +201,55 @@ def wide_grammar(rng, ntoks, nrules):
     return G.Gram(toks, rules)
 
 
+# ------------------------------------------------------------------ one sequence around wincode's old 4 MiB limit
+
+def chain_grammar(n, extra_tokens=0):
+    """`A0: 'a' A1 | 'b'; ... A{n-1}: 'b';` — conflict-free, 3 states and 2 productions per rule; plus declared, unused tokens"""
+    decl = "".join("%%token %s\n" % " ".join("t%d" % i for i in range(k, min(k + 1000, extra_tokens)))
+                   for k in range(0, extra_tokens, 1000))
+    return ("%start A0\n" + decl + "%%\n" + "".join("A%d: 'a' A%d | 'b';\n" % (i, i + 1) for i in range(n - 1))
+            + "A%d: 'b';\n" % (n - 1))
+
+
+def big_source(label):
+    """(yacc kind, source, inputs as token-name lists, what is big) of a member of the `big_*` family"""
+    L = PREALLOC_LIMIT
+    if label.startswith("big_programs"):
+        # a programs section of exactly `size` bytes (a String is a sequence of u8: the limit counted its bytes)
+        size = L + 1 if label.endswith("_above") else L
+        head, tail = 'const X: &str = "', '";'
+        return "U", "%start S\n%%\nS: 'a' S | 'b';\n%%\n" + head + "x" * (size - len(head) - len(tail)) + tail, \
+            [["a", "a", "b"], ["b"], []], "programs section of %d bytes" % size
+    if label == "big_action_above":
+        head, tail = "/*", "*/ 1"
+        return "U", "%start S\n%actiontype u64\n%%\nS: 'a' S {" + head + "y" * (L + 1 - len(head) - len(tail)) + tail \
+            + "} | 'b' { 2 };\n", [["a", "a", "b"], ["b"], ["a"]], "one action of %d bytes" % (L + 1)
+    if label == "big_core_reduces_above":
+        # the auditor's input: 7200 states x 4800 productions = 34 560 000 bits = 4 320 000 bytes in ONE Vec<u64>
+        return "O", chain_grammar(2400), [["a", "a", "b"], ["b"], ["a", "a"]], "core_reduces: 7200 states x 4800 productions bits"
+    if label == "big_core_reduces_below":
+        return "O", chain_grammar(2350), [["a", "a", "b"], ["b"]], "core_reduces: 7050 states x 4700 productions bits (just below)"
+    if label == "big_state_actions_above":
+        # 65534 declared tokens (+ EOF = 65535, the most u16 can index) x 537 states = 35 192 295 bits
+        return "O", chain_grammar(179, extra_tokens=65532), [["a", "a", "b"], ["b"], ["t7"]], "state_actions/state_shifts: 537 states x 65535 tokens bits"
+    if label == "big_token_names_above":
+        # 104 859 tokens x 40 bytes (Option<(Span, String)>) = 4 194 360 bytes
+        return "O", chain_grammar(2, extra_tokens=104856), [["a", "b"], ["b"]], "token_names: 104 859 elements of 40 bytes"
+    raise ValueError(label)
+
+
+BIG_QUICK = [("big_programs_above", [("16", "fix"), ("32", "var")]), ("big_action_above", [("16", "var"), ("32", "fix")]),
+             ("big_programs_at_limit", [("8", "fix")])]
+BIG_THOROUGH = [("big_core_reduces_above", [("16", "fix"), ("16", "var"), ("32", "var")]), ("big_core_reduces_below", [("16", "var")]),
+                ("big_state_actions_above", [("16", "var"), ("16", "fix")]), ("big_token_names_above", [("32", "var"), ("32", "fix")])]
+
+
+def big_case_line(label, w, e):
+    """the harness case line of a `big_*` case (replays name it instead of carrying megabytes of hex)"""
+    kind, src, inputs, _ = big_source(label)
+    return "%s %s %s %s d%s" % (kind, src.encode().hex(), w, e, "".join(" ; " + " ".join(t.encode().hex() for t in inp) for inp in inputs))
+
+
 def gen_cases(ctx, n_random):
     rng = ctx.rng
     cases = []   # (label, kind, src, rename, gram, inputs)
@@ -275,6 +351,10 @@ def gen_cases(ctx, n_random):
 
 # ------------------------------------------------------------------ decoded values
 
+_DIGITS = re.compile(r"[0-9]*")
+_HEX = re.compile(r"[0-9a-f]*")
+
+
 def parse_value(s):
     """value dump of the OCaml driver -> python (ints, bytes, None, ('S',v), lists, tuples, ('E',i,v))"""
     pos = [0]
@@ -282,9 +362,7 @@ def parse_value(s):
     def val():
         ch = s[pos[0]]
         if ch.isdigit():
-            j = pos[0]
-            while j < len(s) and s[j].isdigit():
-                j += 1
+            j = _DIGITS.match(s, pos[0]).end()
             v = int(s[pos[0]:j])
             pos[0] = j
             return v
@@ -292,9 +370,7 @@ def parse_value(s):
             pos[0] += 1
             return ch == "t"
         if ch == "x":
-            j = pos[0] + 1
-            while j < len(s) and s[j] in "0123456789abcdef":
-                j += 1
+            j = _HEX.match(s, pos[0] + 1).end()
             v = bytes.fromhex(s[pos[0] + 1:j])
             pos[0] = j
             return v
@@ -363,6 +439,31 @@ def bit(vob, k):
     return (vob["vec"][k // 64] >> (k % 64)) & 1
 
 
+class Rows:
+    """the set positions of row r of a bit matrix stored row after row in a Vob (bit k = word k // 64, bit k % 64);
+    same answers as `[c for c in range(ncols) if bit(vob, r * ncols + c)]`, without touching every bit"""
+
+    def __init__(self, vob, ncols):
+        self.data = b"".join(w.to_bytes(8, "little") for w in vob["vec"])
+        self.ncols = ncols
+        self.mask = (1 << ncols) - 1
+
+    def row(self, r):
+        start = r * self.ncols
+        x = (int.from_bytes(self.data[start // 8:(start + self.ncols + 7) // 8 + 1], "little") >> (start % 8)) & self.mask
+        out = []
+        while x:
+            low = x & -x
+            out.append(low.bit_length() - 1)
+            x ^= low
+        return out
+
+
+def digest(v):
+    """what harness c14 prints in digest mode for an answer longer than 96 bytes"""
+    return "~%08x:%d" % (zlib.crc32(v.encode()) & 0xffffffff, len(v)) if len(v) > 96 else v
+
+
 def txt(b):
     return "-" if b is None else "s" + b.hex()
 
@@ -424,10 +525,11 @@ def expected_from_decoded(gd, sd, nst):
         put("g.prod.%d.span" % p, gd["prod_spans"], p, span)
     e["s.start_state"] = str(sd["start_state"])
     snt, snp = sd["tokens_len"], sd["prods_len"]
+    ra, rs, rc = Rows(sd["state_actions"], snt), Rows(sd["state_shifts"], snt), Rows(sd["core_reduces"], snp)
     for s in range(nst):
-        e["s.%d.state_actions" % s] = ",".join(str(t) for t in range(snt) if bit(sd["state_actions"], s * snt + t))
-        e["s.%d.state_shifts" % s] = ",".join(str(t) for t in range(snt) if bit(sd["state_shifts"], s * snt + t))
-        e["s.%d.core_reduces" % s] = ",".join(str(p) for p in range(snp) if bit(sd["core_reduces"], s * snp + p))
+        e["s.%d.state_actions" % s] = ",".join(map(str, ra.row(s)))
+        e["s.%d.state_shifts" % s] = ",".join(map(str, rs.row(s)))
+        e["s.%d.core_reduces" % s] = ",".join(map(str, rc.row(s)))
         e["s.%d.reduce_only" % s] = str(bit(sd["reduce_states"], s))
     c = sd["conflicts"]
     if c is None:
@@ -452,44 +554,28 @@ def vob_lengths(gd, sd):
 
 # ------------------------------------------------------------------ call sites in ctbuilder.rs
 
-def ctbuilder_pairing():
+def ctbuilder_pairing(cfgs):
     """The harness repeats the two call sites of ctbuilder.rs (serialise at build time, `_reconstitute`
-    in generated code) instead of running them (they sit inside the code generator).  Read them back
-    from the source: per SerialisationFormat the configuration used for writing, the one handed to
-    `_reconstitute` by generated code, and the body of `_reconstitute`.  Returns (facts, problems)."""
-    import re
-    path = os.path.join(core.REPO, "lrpar/src/lib/ctbuilder.rs")
-    src = open(path, encoding="utf-8").read()
+    in generated code) instead of running them (they sit inside the code generator) — with the configuration
+    expressions of the source itself (`cfgs` = vlib/ctconfig.read(), compiled into the harness).  Per
+    SerialisationFormat the expression used for writing and the one handed to `_reconstitute` by generated code
+    must be the same configuration, and of the format's integer encoding.  Returns (facts, problems)."""
+    src = open(os.path.join(core.REPO, "lrpar/src/lib/ctbuilder.rs"), encoding="utf-8").read()
     facts, problems, notes = {}, [], []
-    for m in re.finditer(r"SerialisationFormat::(FixedSizeInteger|VariableSizedInteger)\s*=>\s*\{", src):
-        depth, j = 1, m.end()
-        while j < len(src) and depth:
-            depth += {"{": 1, "}": -1}.get(src[j], 0)
-            j += 1
-        block = src[m.end():j - 1]
-        encs = sorted(set(re.findall(r"with_(fixint|varint)_encoding\s*\(\)", block)))
-        if "_reconstitute" in block:
-            side = "read"
-            ok = re.search(r"_reconstitute\s*\(\s*__GRM_DATA\s*,\s*__STABLE_DATA\s*,[^;{}]*Configuration::default\(\)\s*\.\s*with_\w+_encoding\(\)\s*\)", block)
-        elif "serialize" in block:
-            side = "write"
-            ok = (re.search(r"Configuration::default\(\)\s*\.\s*with_\w+_encoding\(\)", block)
-                  and re.search(r"config::serialize\s*\(\s*grm\s*,\s*config\s*\)", block)
-                  and re.search(r"config::serialize\s*\(\s*stable\s*,\s*config\s*\)", block))
-        else:
-            continue
-        facts.setdefault(m.group(1), {}).setdefault(side, []).append(encs)
-        if not ok:
-            notes.append("%s/%s: call site has a different shape from the one the harness repeats" % (m.group(1), side))
-    want = {"FixedSizeInteger": ["fixint"], "VariableSizedInteger": ["varint"]}
-    for fmt, enc in want.items():
-        f = facts.get(fmt, {})
-        if "write" not in f or "read" not in f:
-            notes.append("%s: call sites not recognised" % fmt)
-        elif f["write"] != [enc] or f["read"] != [enc]:
-            # a definite disagreement between what is written and what generated code reads back
-            problems.append("%s: written with %s, read back with %s (the harness uses %s for both)"
-                            % (fmt, f["write"], f["read"], enc))
+    for fmt, _, enc in ctconfig.FORMATS:
+        w, r = ctconfig.norm(cfgs[fmt]["write"]), ctconfig.norm(cfgs[fmt]["read"])
+        facts[fmt] = {"write": w, "read": r, "size_limit": {"write": ctconfig.has_limit(w), "read": ctconfig.has_limit(r)}}
+        encs = [sorted(set(re.findall(r"with_(fixint|varint)_encoding\(\)", x))) for x in (w, r)]
+        if encs != [[enc], [enc]]:
+            problems.append("%s: written with %s, read back with %s (the format's encoding is %s)" % (fmt, encs[0], encs[1], enc))
+        elif w != r:
+            # the same integer encoding but otherwise different configurations: what is written need not be readable
+            # (a size limit on one side only, another length encoding, another byte order)
+            problems.append("%s: written with `%s`, read back by generated code with `%s`" % (fmt, w, r))
+        if ctconfig.has_limit(w) != (not LIMIT_FIXED) or ctconfig.has_limit(r) != (not LIMIT_FIXED):
+            notes.append("%s: LIMIT_FIXED = %s but the source %s a preallocation size limit (write: %s, read: %s)"
+                         % (fmt, LIMIT_FIXED, "keeps" if ctconfig.has_limit(w) or ctconfig.has_limit(r) else "has no",
+                            ctconfig.has_limit(w), ctconfig.has_limit(r)))
     m = re.search(r"pub fn _reconstitute\b.*?\n\}", src, re.S)
     body = m.group(0) if m else ""
     if not (re.search(r"deserialize_from\s*\(\s*grm_buf\s*,\s*config\s*\)\s*\.unwrap\(\)", body)
@@ -509,6 +595,8 @@ def parse_transcript(out):
             d["BG"] = s[3:]
         elif s.startswith("BS "):
             d["BS"] = s[3:]
+        elif s.startswith("UG ") or s.startswith("US "):
+            d[s[:2]] = s[3:]        # SERERR: what the same configuration writes without its size limit
         elif s.startswith("NST "):
             d["NST"] = int(s[4:])
         elif s.startswith("O "):
@@ -530,7 +618,7 @@ def resolve_hangs(ctx, exe, cases, idx, parsed):
     once without inputs (all queries), then every input separately on the originals only and on the
     reconstituted objects only.  'Does not return' is an answer like any other: it must be the same
     on both sides."""
-    todo = [li for li, d in enumerate(parsed) if d["raw0"].split()[:1] in (["HANG"], ["CRASH"])]
+    todo = [li for li, d in enumerate(parsed) if li < len(idx) and d["raw0"].split()[:1] in (["HANG"], ["CRASH"])]
     if not todo:
         return
     relines, ref = [], []
@@ -605,6 +693,7 @@ def differential(ctx, with_model=True):
         mexe = core.build_model("c14")
     else:
         names, info, mexe = {}, {"versions": None, "notes": "schema translation failed: observational part only", "digest": {}}, None
+    cfgs = ctconfig.ensure_harness_config()      # the configuration expressions of ctbuilder.rs -> harness/src/c14_config.rs
     exe = core.build_harness("c14")
     cases = gen_cases(ctx, ctx.n(70, 1200))
     confs = [(w, e) for w in ("8", "16", "32") for e in ("fix", "var")]
@@ -614,22 +703,69 @@ def differential(ctx, with_model=True):
         for w, e in confs:
             lines.append("%s %s %s %s%s" % (kind, src.encode().hex(), w, e, tail))
             idx.append((ci, w, e))
-    impl = core.run_lines([exe], lines)
+    n_small = len(lines)
+    # the `big_*` family: one sequence just above (at / below) wincode's default 4 MiB preallocation size limit; digest mode
+    big_what = {}
+    for label, bconfs in BIG_QUICK + ([] if ctx.tier == "quick" else BIG_THOROUGH):
+        kind, src, inputs, what = big_source(label)
+        big_what[label] = what
+        cases.append((label, kind, src, Opts(programs=label.startswith("big_programs"), actions=label.startswith("big_action")), None, inputs))
+        for w, e in bconfs:
+            lines.append(big_case_line(label, w, e))
+            idx.append((len(cases) - 1, w, e))
+    impl = core.run_lines([exe], lines[:n_small])
+    impl += core.run_lines([exe], lines[n_small:], shards=len(lines) - n_small, timeout=3000, env={"GVH_CASE_TIMEOUT_MS": "1500000"})
     parsed = [parse_transcript(out) for out in impl]
-    resolve_hangs(ctx, exe, cases, idx, parsed)
-    # model side: decode both blobs of every case that produced bytes
+    resolve_hangs(ctx, exe, cases, idx[:n_small], parsed)
+    # model side: decode both blobs of every case that produced bytes (of a case whose serialisation failed: the bytes
+    # the same configuration writes without its size limit)
     mlines, mref = [], []
     for li, d in enumerate(parsed):
-        if with_model and "BG" in d and "BS" in d:
-            ci, w, e = idx[li]
-            mlines.append("G %s %s %s" % (w, e, d["BG"] or "-"))
-            mref.append((li, "G"))
-            mlines.append("S %s %s %s" % (w, e, d["BS"] or "-"))
-            mref.append((li, "S"))
-    mout = core.run_lines([mexe], mlines) if with_model else []
+        if not with_model:
+            break
+        ci, w, e = idx[li]
+        for which, key in (("G", "BG"), ("S", "BS")):
+            blob = d.get(key) if "BG" in d and "BS" in d else d.get("U" + which)
+            if blob is not None:
+                mlines.append("%s %s %s %s" % (which, w, e, blob or "-"))
+                mref.append((li, which))
+    small = [k for k, (li, _) in enumerate(mref) if li < n_small]
+    bigm = [k for k, (li, _) in enumerate(mref) if li >= n_small]
+    mout = [None] * len(mlines)
+    for k, o in zip(small, core.run_lines([mexe], [mlines[k] for k in small]) if small else []):
+        mout[k] = o
+    # megabyte blobs: the extracted decoder recurses once per byte (stack), and a small minor heap would rescan that stack
+    bigcmd = ["bash", "-c", "ulimit -s unlimited 2>/dev/null || ulimit -s $(ulimit -Hs); exec \"$0\"", mexe]
+    for k, o in zip(bigm, core.run_lines(bigcmd, [mlines[k] for k in bigm], shards=len(bigm), timeout=3000,
+                                         env={"OCAMLRUNPARAM": "s=32M"}) if bigm else []):
+        mout[k] = o
     model = {}
     for (li, which), o in zip(mref, mout):
         model[(li, which)] = o
+    # in-memory element sizes: the model's mem_size (what decode_limited multiplies lengths with) vs size_of
+    sizes_bad = []
+    if with_model:
+        sl = ["SIZES %s" % w for w in ("8", "16", "32")]
+        for w, a, b in zip(("8", "16", "32"), core.run_lines([exe], sl, shards=1), core.run_lines([mexe], sl, shards=1)):
+            ia = [x.split() for x in a.split(" # ")]
+            ib = [x.split() for x in b.split(" # ")]
+            try:
+                impl_sizes = [(lab.rpartition("=")[0], int(lab.rpartition("=")[2])) for sec in (ia[0][2:], ia[1][1:]) for lab in sec]
+                model_sizes = [int(x) for sec in (ib[0][2:], ib[1][1:]) for x in sec]
+            except (IndexError, ValueError):
+                sizes_bad.append("width %s: SIZES answers not understood (%s | %s)" % (w, a[:80], b[:80]))
+                continue
+            if [n for _, n in impl_sizes] != model_sizes:
+                sizes_bad.append("width %s: size_of %s, mem_size %s" % (w, impl_sizes, model_sizes))
+            ctx.count("element_sizes_compared", len(model_sizes))
+    ctx.coverage["mem_size_vs_size_of"] = sizes_bad or "equal for every sequence element type of YaccGrammar / StateTable, u8/u16/u32"
+    if sizes_bad and not LIMIT_FIXED:
+        # only the limited reader depends on element sizes: with LIMIT_FIXED nothing of the verdict does
+        ctx.violation({"what": "the model's in-memory element sizes (Model.mem_size, used by decode_limited) are not size_of of the "
+                               "implementation's element types: the expectation 'build fails iff decode_limited refuses' does not apply",
+                       "problems": sizes_bad}, no_input=True)
+        ctx.oblige(False, "mem_size = size_of")
+    big_seen = {}
     n_corr_bad = 0
     n_diff = 0
     vob_mod = {"multiple_of_64": 0, "not_multiple_of_64": 0}
@@ -637,10 +773,25 @@ def differential(ctx, with_model=True):
         ci, w, e = idx[li]
         label, kind, src, o, g, inputs = cases[ci]
         conf = "%s/%s" % (w, e)
+        isbig = li >= n_small
         base = {"grammar": src if len(src) < 4000 else src[:1500] + "...(%d bytes)" % len(src), "yacckind": kind,
                 "storage_width": int(w), "encoding": e, "options": o.tag(), "case": label,
                 "case_line": lines[li] if len(lines[li]) < 30000 else "(long: kind hex(source) width enc ; hex token names ...)",
                 "replay_cmd": "echo \"$case_line\" | .work/target/release/c14   # sections: O = originals, R = reconstituted, DIFF = differences"}
+        if isbig:
+            base.update({"what_is_big": big_what[label], "case_line": "(megabytes; rebuilt by the replay_cmd)",
+                         "replay_cmd": "cd /verif && python3 -c 'from checks import C14; print(C14.big_case_line(\"%s\", \"%s\", \"%s\"))' | "
+                                       "GVH_CASE_TIMEOUT_MS=1500000 .work/target/release/c14 | tr '#' '\\n' | grep -v '^ [OR] '   "
+                                       "# digest mode: long answers as ~crc32:length" % (label, w, e)})
+        # what the reader of wincode's DEFAULT configuration (4 MiB limit) says about the bytes: C14.Run.run_limited
+        lim = {}
+        for which in "GS":
+            mo = model.get((li, which), "")
+            if mo.startswith("OK "):
+                lim[which] = dict(x.split("=") for x in mo.partition(" V ")[0].split()[1:]).get("lim")
+        above = [nm for which, nm in (("G", "YaccGrammar"), ("S", "StateTable")) if lim.get(which) == "0"]
+        if isbig and lim:
+            big_seen.setdefault(label, set()).add(bool(above))
         if "BG" not in d:
             head = d["raw0"].split()[0] if d["raw0"] else "EMPTY"
             ctx.count("not_built_%s_w%s" % (head, w))
@@ -648,8 +799,25 @@ def differential(ctx, with_model=True):
                 if head == "BUILDPANIC" and w == "8":
                     continue        # storage type too small for the grammar: outside the property's domain
                 if head == "SERERR":
-                    # serialize returned Err: ctbuilder propagates it (`?`), no parser is generated
+                    # the build-time `serialize` returned Err: ctbuilder propagates it (`?`), CTParserBuilder::build fails and no
+                    # parser is generated — although the grammar and the table were built for this storage type
                     ctx.count("serialize_err")
+                    explained = with_model and "UG" in d and bool(above) and set(lim) == {"G", "S"}
+                    rep_ = dict(base, what="a grammar and state table built for this storage type cannot be serialised: "
+                                           "CTParserBuilder::build fails, no generated parser exists",
+                                serialize_error=d["raw0"][:300],
+                                model=("the unlimited writer's bytes are decoded and re-encoded by the model; the reader of a "
+                                       "configuration with wincode's default 4 MiB preallocation size limit (decode_limited) refuses: %s"
+                                       % ", ".join(above)) if explained else
+                                      "decode_limited (4 MiB limit) accepts the unlimited writer's bytes: the size limit does not explain the error"
+                                      if with_model and "UG" in d else "no bytes to evaluate")
+                    if not LIMIT_FIXED and explained:
+                        ctx.count("serialize_err_explained_by_size_limit")
+                        ctx.violation(rep_, known_key=K_LIMIT)
+                        ctx.oblige(False)
+                    else:
+                        ctx.violation(rep_)
+                        ctx.oblige(False)
                     continue
                 ctx.violation(dict(base, what="harness did not produce a transcript", impl=d["raw0"][:400]), no_input=True)
                 ctx.oblige(False)
@@ -687,6 +855,9 @@ def differential(ctx, with_model=True):
                 dec[which] = named(parse_value(vtxt), names[nm])
             except Exception as ex:        # noqa
                 problems.append("%s: decoded value does not fit the translator's field tree: %s" % (nm, ex))
+        if not LIMIT_FIXED and above:
+            problems.append("the configurations are taken to keep the 4 MiB preallocation size limit (LIMIT_FIXED = False), the model's "
+                            "limited reader refuses the bytes of %s, yet serialisation and _reconstitute succeeded" % ", ".join(above))
         # ---- (2) decoded fields vs API answers on the ORIGINALS
         if "G" in dec and "S" in dec and not problems:
             try:
@@ -694,9 +865,9 @@ def differential(ctx, with_model=True):
                 for k, v in exp.items():
                     if k.endswith("~"):
                         got = d["O"].get(k[:-1], "<absent>")
-                        if not got.startswith(v):
+                        if not got.startswith(v) and not (isbig and got.startswith("~")):
                             problems.append("decoded field vs API: %s: decoded %s, API %s" % (k[:-1], v[:80], got[:80]))
-                    elif d["O"].get(k, "<absent>") != v:
+                    elif d["O"].get(k, "<absent>") != (digest(v) if isbig else v):
                         problems.append("decoded field vs API: %s: decoded %s, API %s" % (k, v[:80], d["O"].get(k, "<absent>")[:80]))
                 ctx.coverage["decoded_fields_compared"] = ctx.coverage.get("decoded_fields_compared", 0) + len(exp)
                 for l_ in vob_lengths(dec["G"], dec["S"]):
@@ -711,6 +882,8 @@ def differential(ctx, with_model=True):
                                    broken_correspondence="C14.Run.run_case (decode/encode under Schema_gen) vs wincode's writer; "
                                                          "C14_grammar_reconstitute / C14_table_reconstitute no longer apply to these bytes",
                                    grammar_bytes=d["BG"][:400], table_bytes=d["BS"][:400]), no_input=True)
+        if isbig:
+            ctx.count("big_case_round_trips" if not diffs and not problems else "big_case_fails")
         ctx.oblige(not diffs and not problems)
         nparse_acc = sum(1 for k, v in d["O"].items() if k.startswith("parse.") and "val:-" not in v and ";nerr=0" in v)
         nparse_rej = sum(1 for k, v in d["O"].items() if k.startswith("parse.") and ";nerr=0" not in v)
@@ -720,11 +893,13 @@ def differential(ctx, with_model=True):
         ctx.coverage["queries_compared"] = ctx.coverage.get("queries_compared", 0) + len(d["okeys"])
         ctx.coverage["parses_compared"] = ctx.coverage.get("parses_compared", 0) + nparse_acc + nparse_rej
         ctx.coverage["bytes_decoded"] = ctx.coverage.get("bytes_decoded", 0) + (len(d["BG"]) + len(d["BS"])) // 2
-        ctx.case("%s|%s|%s|%s" % (kind, src, w, e), nontriv,
+        ctx.case("%s|%s|%s|%s" % (kind, src if not isbig else label, w, e), nontriv,
                  {"case": label, "yacckind": kind, "options(%s)" % ",".join(Opts.KEYS): o.tag(), "width": w, "encoding": e,
                   "states": d["NST"], "grammar_bytes": len(d["BG"]) // 2, "table_bytes": len(d["BS"]) // 2,
                   "queries": len(d["okeys"]), "parses": nparse_acc + nparse_rej, "grammar": src[:300]})
-    facts, pproblems = ctbuilder_pairing()
+    facts, pproblems = ctbuilder_pairing(cfgs)
+    ctx.coverage["big_sequences"] = {
+        l: {"what": big_what[l], "refused_by_the_4MiB_limited_reader": sorted(big_seen.get(l, []))} for l in big_what}
     ctx.coverage["ctbuilder_call_sites"] = facts
     if pproblems:
         ctx.violation({"what": "the build-time / start-up call sites in lrpar/src/lib/ctbuilder.rs are no longer the ones the harness "
@@ -743,7 +918,11 @@ def differential(ctx, with_model=True):
         "non-ASCII token names/action text/types, %actiontype); corpus x {Grmtools, UserAction} with multi-line action bodies, multi-line programs "
         "section and multi-line comments under LF / CRLF / bare CR / LF+CR / mixed line ends (and a third of the random grammars); "
         "Eco with %implicit_tokens; sources padded beyond 250 and 65535 bytes "
-        "(spans and lengths in every varint class that can occur); grammars with 64/128/301 tokens and 261 rules; random grammars of the "
+        "(spans and lengths in every varint class that can occur); grammars with 64/128/301 tokens and 261 rules; ONE SEQUENCE AROUND "
+        "4 MiB (wincode's default preallocation size limit, in force until /repo 40b4e42; digest mode: long answers compared by crc32 + "
+        "length): a programs section of 4 MiB + 1 and of exactly 4 MiB bytes, one action of 4 MiB + 1 bytes [quick and thorough]; the "
+        "2400-rule chain (core_reduces = 7200 states x 4800 productions bits) and its 2350-rule neighbour just below, 65534 declared tokens "
+        "x 537 states with u16 (state_actions / state_shifts), 104 859 tokens (token_names, 40-byte elements) [thorough]; random grammars of the "
         "LR families with random option subsets.  Each x {fix,var} x {u8,u16,u32}.  Inputs: sentences, near-sentences, random strings, "
         "the empty input.  Non-trivial = >= 4 states, an accepted input, and a user-action kind or an optional declaration; distinct by "
         "(kind, source, width, encoding)")
@@ -757,8 +936,9 @@ def differential(ctx, with_model=True):
     ]
     ctx.assumptions += [
         "64-bit little-endian target (usize travels as u64; try_into on read never fails)",
-        "sequences stay below wincode's preallocation limit (4 MiB per container): beyond it wincode::serialize returns Err, "
-        "ctbuilder propagates it and no parser is generated (a loud build failure, not a silent difference)",
+        "sequence LENGTHS fit a u64 (they are usize values in memory); no other size bound: the configurations of ctbuilder.rs have no "
+        "preallocation size limit since /repo 40b4e42 (LIMIT_FIXED = True: a serialisation error of a grammar/table that was built is a "
+        "violation; with the limit, C14_codec_roundtrip_limited_refuted / C14_limited_build_fails_iff describe exactly which builds fail)",
         "strings are byte lists with a length prefix in the model; UTF-8 validation on read (String::from_utf8) is outside the model "
         "— the writer only ever emits the bytes of a valid String",
         "storage types too small for a grammar (u8 with > 255 tokens/rules/productions/states) make construction fail before "
